@@ -10,7 +10,8 @@ RULE = ('Random operation sequences (10-200 requests) against the real Simulated
         'while the broker clock is behind a portfolio clock), quote moves, ExecutionHandler calls, refused requests; plus '
         'portfolio-level random ladders. After EVERY request a shadow ledger in exact rationals is compared with '
         'all balances, the account aggregates and the event history. A case is non-trivial when it has >=1 fill, '
-        '>=1 transfer in each direction and >=2 portfolios; distinct = distinct (request kind, side) sequence.')
+        '>=1 transfer in each direction and >=2 portfolios; distinct = distinct (request kind, side) sequence.'
+        ' Widened after seeded changes: base currency in {USD, GBP, EUR}; order ids repeated across portfolios (every delivered fill must belong to an order pending in THAT portfolio); very large positions; tiny (sub-cent) amounts.')
 ASSUMPTIONS = [
     'fills are taken as the Transaction delivered to Portfolio.transact_asset (price, signed quantity, commission); '
     'that these equal quote and fee model is C05',
